@@ -1,9 +1,11 @@
 CONSTANTS
-  Payers = {"a", "b"} Others = {"r", "p1"} MAXH = 60
+  Payers = {"a", "b"} Others = {"r", "p1"}
+  MAXH = 60
   FIX = {"ref", "space", "gaugeid", "sizes"}
   Slots = {"g1", "g2", "g3", "g4", "g5", "g6", "g7", "g8", "g9", "g10", "g11", "g12"}
   Quotes = {2000, 70000} Units = {1000, 3000} Days = {30, 60, 400} SzsPos = {300, 700} SzsNeg = {} Mps = {1, 2} Dts = {0, 2, 40, 720}
-  PREF = 25 PPOL = 40 PCW = 2 PIW = 2 FUND = 1000000 H0 = 2 Ratios <- MCRatios MaxFiles = 3
+  PREF = 25 PPOL = 40 PCW = 2 PIW = 2 FUND = 1000000 Ratios <- MCRatios MaxFiles = 3
+  H0 = 2
   D = 40
 INIT SimInit
 NEXT SimNext
